@@ -166,7 +166,8 @@ def run(ctx):
   jobs = []
   for d in ([1, 2, 3, 4, 8] if big else [1, 2, 3, 8]):
     # every fifth profile: the same for_each_client function is called three times, the shared input updated in between
-    cases = [{'nb': p, 'gen': i % 2 == 0, 'jax_inputs': i % 3 != 0, 'calls': 3 if (i % 5 == 0 or i % 6 == 0) else 1, 'odd_ids': i % 2 == 1}
+    cases = [{'nb': p, 'gen': i % 2 == 0, 'jax_inputs': i % 3 != 0, 'calls': 3 if (i % 5 == 0 or i % 6 == 0) else 1, 'odd_ids': i % 2 == 1,
+              'typed_keys': i % 3 == 1}
              for i, p in enumerate(profiles)]
     if d in (3, 4, 8) and not big:
       cases = cases[::3]
@@ -191,6 +192,8 @@ def run(ctx):
       cfg = dict(nb=rec['nb'], backend=rec['backend'], devices=job['devices'], with_step_result=rec['with_step_result'], order=rec['order'])
       if rec.get('call'):
         cfg['call'] = rec['call'] + 1
+      if rec.get('typed_keys'):
+        cfg['typed_keys'] = True
       nb = rec['nb']
       pad = rec['backend'] == 'pmap' and (len(nb) % job['devices'] != 0 or len(set(nb)) > 1)
       ctx.case(key=repr(cfg), nontrivial=pad)
@@ -229,6 +232,8 @@ def run(ctx):
             problem = ('step_results', f'client {c}: step results {res}, the fold gives {e["res"]}')
           elif not y['finite'] or y['vec'] != base or y['h'] != hh or y['k'] != rec.get('k', 7) or y['flag'] is not True:
             problem = ('values', f'client {c}: vec={y["vec"]} (expected {base}) h={y["h"]} (expected {hh}) flag={y["flag"]} k={y["k"]}')
+          elif y.get('keys_ok') is False:
+            problem = ('typed-keys', f'client {c}: the typed PRNG key of the client input / of a batch did not arrive unchanged')
           elif rec['with_step_result'] and any(r['q'] != 1.0 for r in y['res']):
             problem = ('padding-step-result', f'client {c}: a step result was computed on a padding batch')
           if problem:
